@@ -114,8 +114,12 @@ def ser_result(res, bind_ids, start):
     try:
         if isinstance(res, ast.AST):
             if _is_stmt(res):
-                return 'stmts', [rs.stmt(res)], rs
-            return 'expr', rs.expr(res), rs
+                kind, sx, items = 'stmts', [rs.stmt(res)], [res]
+            else:
+                kind, sx, items = 'expr', rs.expr(res), [res]
+            if 'Unknown:' in sexp(sx) or rs.bad_ctx or not arities_ok(items):
+                return 'garbage', sx, rs
+            return kind, sx, rs
         items = list(res)
         if all(_is_stmt(x) for x in items):
             sx = [rs.stmt(x) for x in items]
